@@ -98,7 +98,9 @@ fn run_ops<R: RadioKind>(r: &mut R, bus: &Rc<RefCell<Bus>>, ops: &[&str]) -> Vec
                 let n: usize = int(a[3]);
                 let mut buf = vec![0xA5u8; n];
                 let rr = run(r.get_rx_payload(&pp, &mut buf));
-                format!("{} buf={}", res(rr), hex(&buf))
+                // the buffer is part of the contract only when the call succeeds
+                let ok = matches!(rr, Some(Ok(_)));
+                format!("{} buf={}", res(rr), if ok { hex(&buf) } else { "*".into() })
             }
             "status" => match run(r.get_rx_packet_status()) {
                 None => "PARKED".into(),
